@@ -57,6 +57,23 @@ def source_moved_from_by_std(tr, kind, op, sid, tid, aid):
     return False
 
 
+def expected_ids_by_std(tr, kind, op, sid, tid, aid):
+    """(manager the target must hold, manager the source must hold or 'null') after `op` by the std rules
+    (native momo containers: the manager always travels with the contents; copies take a copy of the source's)."""
+    ca, ma, sw, em = tr_bits(tr)
+    if op in ('none',) or op.startswith('self'): return ('-', str(sid))
+    if tr == '8': return ('0', 'null' if source_moved_from_by_std(tr, kind, op, sid, tid, aid) else '0')
+    s_after = 'null' if source_moved_from_by_std(tr, kind, op, sid, tid, aid) else str(sid)
+    if op in ('copyc', 'movec'): t = sid
+    elif op in ('copyca', 'moveca'): t = aid
+    elif op == 'copya': t = sid if ca else tid
+    elif op == 'movea': t = sid if ma else tid
+    elif op == 'swap':
+        t = sid; s_after = str(tid)
+    else: t = tid
+    return (str(t), s_after)
+
+
 def swap_defined(tr, a, b):
     ca, ma, sw, em = tr_bits(tr)
     return tr == 'N' or em or sw or a == b
@@ -66,6 +83,7 @@ def gen_cases(ctx, scale):
     r = ctx.rng
     cases = []
     idsets = [(1, 1, 1), (1, 2, 3), (1, 2, 1), (1, 2, 2), (5, 5, 7)]
+    rr = [0]
 
     def add(tr, kind, op, ss, ts, ids, post):
         sid, tid, aid = ids
@@ -90,19 +108,19 @@ def gen_cases(ctx, scale):
                 for op in ops:
                     for ss in states_for(kind, 's'):
                         tss = states_for(kind, 't')
-                        # every (op, source state) with every id pattern; target state and post sampled, then every post once
-                        plan = []
-                        for ids in idsets:
-                            plan.append((r.choice(tss), ids, None))
-                        for (ts, ids, _) in plan:
+                        # quick: every (op, source state) with one id pattern (round robin), target state and follow-up
+                        # sampled; thorough: every id pattern and every follow-up
+                        pats = idsets[1:4] if scale > 1 else [idsets[rr[0] % len(idsets)], idsets[(rr[0] // 2 + 1) % 4]][:(2 if fam == 'N' else 1)]
+                        rr[0] += 1
+                        for ids in pats:
                             posts = posts_for(tr, kind, op, ids)
                             take = posts if scale > 1 else [r.choice(posts)]
-                            if fam == 'N' and scale == 1: take = [r.choice(posts), r.choice(posts)]
-                            for post in set(take):
-                                add(tr, kind, op, ss, ts, ids, post)
+                            for post in take:
+                                add(tr, kind, op, ss, r.choice(tss), ids, post)
                 # the follow-ups on a moved-from source, exhaustively (this is where D11/D12/D13 live)
-                for ss in states_for(kind, 's')[:4]:
-                    for ids in idsets:
+                fss = states_for(kind, 's')
+                for ss in (fss[1:4] if scale > 1 else [fss[2]]):
+                    for ids in (idsets if scale > 1 else idsets[:3]):
                         for op in (['movec', 'movea'] + (['moveca'] if fam == 'W' else [])):
                             for post in ['clear', 'swapf', 'fswap', 'massign', 'cassign', 'none']:
                                 add(tr, kind, op, ss, 'n3', ids, post)
@@ -146,12 +164,37 @@ def classify_abort(c):
     return None
 
 
+def source_stamp(ctx):
+    """content hash of everything the harness binaries depend on: a binary is reused only if nothing changed
+    (the momo headers of the tree under test - /repo or VERIF_REPO -, kit.h, private_access.h, harness.cpp, flags)"""
+    import hashlib, glob
+    h = hashlib.sha256()
+    files = sorted(glob.glob(os.path.join(ctx.repo, 'include', 'momo', '**', '*.h'), recursive=True))
+    files += [os.path.join(ctx.root, 'harness', 'kit.h'), os.path.join(ctx.root, 'harness', 'private_access.h'),
+              os.path.join(ctx.pdir, 'harness.cpp'), os.path.join(ctx.root, 'lib', 'vlib.py')]
+    for f in files:
+        h.update(f.encode()); h.update(open(f, 'rb').read())
+    h.update(ctx.tier.encode())
+    return h.hexdigest()
+
+
 def build_binaries(ctx):
-    jobs = [('harness.cpp', 'harness_N', ['-O0', '-DNATIVE'])]
-    for tr in TRAITS:
-        jobs.append(('harness.cpp', 'harness_' + tr, ['-O0', '-DTRAITS=' + tr]))
-    res = ctx.cxx_many(jobs)
+    stamp = source_stamp(ctx)
+    suffix = '.san' if ctx.tier == 'thorough' else ''
+    jobs = []
+    for tr in ['N'] + TRAITS:
+        exe = 'harness_' + tr
+        sf = os.path.join(ctx.build, exe + suffix + '.stamp')
+        if os.path.exists(os.path.join(ctx.build, exe + suffix)) and os.path.exists(sf) and open(sf).read() == stamp:
+            continue
+        if os.path.exists(sf): os.remove(sf)
+        jobs.append(('harness.cpp', exe, ['-O0', '-DNATIVE'] if tr == 'N' else ['-O0', '-DTRAITS=' + tr]))
+    res = ctx.cxx_many(jobs) if jobs else {}
     bad = [k for k, v in res.items() if v is None]
+    for k, v in res.items():
+        if v is not None:
+            open(v + '.stamp', 'w').write(stamp)
+    ctx.coverage['harness_binaries'] = {'rebuilt': len(jobs), 'reused': 1 + len(TRAITS) - len(jobs)}
     ctx.stage('build-harness', not bad, ('failed: %s\n' % bad) + getattr(ctx, 'last_cxx_error', '') if bad else '')
     return not bad
 
@@ -166,7 +209,14 @@ def evaluate(ctx, cases, lines):
             ctx.nontrivial.add(c); orc = orc[:-3]
         tr, kind, op, ss, ts, sid, tid, aid, post = case_fields(c)
         if post != 'none' and (op.startswith('move') or op == 'swap'): ctx.nontrivial.add(c)
-        if orc == 'orc=ok': continue
+        if orc == 'orc=ok':
+            # manager identities against the std rule table (python, independent of the Coq model)
+            if not precondition_violated(c) and parts[0].startswith('ok '):
+                f = dict(x.split('=', 1) for x in parts[0].split()[1:])
+                et, es = expected_ids_by_std(tr, kind, op, sid, tid, aid)
+                if f.get('T') != et or f.get('S') != es:
+                    bad.append((c, l, 'manager after %s: target holds %s (std rules: %s), source holds %s (std rules: %s)' % (op, f.get('T'), et, f.get('S'), es), None))
+            continue
         if orc.startswith('orc=abort'):
             if precondition_violated(c): continue
             key = classify_abort(c)
